@@ -63,18 +63,26 @@ where
     /// Add new constraint `c` while keeping the store normalized
     pub fn push_and_normalize(&mut self, newc: Rc<dyn Constraint<U, E>>) {
         if let Some(tree_newc) = newc.downcast_ref::<DisequalityConstraint<U, E>>() {
-            let mut normalized = HashSet::new();
-            for storec in self.0.drain() {
-                // All non-subsumable constraints are always carried along
-                if let Some(tree_storec) = storec.downcast_ref::<DisequalityConstraint<U, E>>() {
-                    if !tree_storec.subsumes(tree_newc) && !tree_newc.subsumes(tree_storec) {
-                        normalized.insert(storec);
-                    }
-                } else {
-                    normalized.insert(storec);
+            // A new constraint that is already implied by a stored constraint is redundant;
+            // the store is kept as it is.
+            let redundant = self.0.iter().any(|storec| {
+                match storec.downcast_ref::<DisequalityConstraint<U, E>>() {
+                    Some(tree_storec) => tree_storec.subsumes(tree_newc),
+                    None => false,
                 }
+            });
+            if redundant {
+                return;
             }
-            self.0 = normalized;
+
+            // Stored constraints that are implied by the new constraint are dropped;
+            // all non-subsumable constraints are always carried along.
+            self.0.retain(|storec| {
+                match storec.downcast_ref::<DisequalityConstraint<U, E>>() {
+                    Some(tree_storec) => !tree_newc.subsumes(tree_storec),
+                    None => true,
+                }
+            });
         }
         self.insert(newc);
     }
